@@ -19,7 +19,10 @@ RULE = ("generator of C04 restricted to cases with a start checkpoint (start_epo
         "(geometry,budget,start,configs); plus iteration histories: the resumed object iterated twice / after an "
         "abandoned iteration, fresh and resumed schedulers built on ONE main sampler object and run in any order, "
         "foreign set_epoch calls between construction and iteration - every iteration compared with a fresh model "
-        "and the final one with the suffix of an uninterrupted run on objects of its own")
+        "and the final one with the suffix of an uninterrupted run on objects of its own; directed: start_sample = "
+        "k*len / start_update = k*updates_per_epoch checkpoints of geometries with a short last batch (drop_last=False, "
+        "len % B != 0) - refused, or accepted and then held to the suffix from epoch k; main samplers incl. kappadata's "
+        "rank-aware samplers (one rank of world_size 1..3) and mocks with misleading length attributes")
 run_impl = I.run_impl
 coq_applicable = c04.coq_applicable
 coq_case = c04.coq_case
@@ -62,6 +65,9 @@ def gen_cases(rng, tier):
                 c["mut"] = m
                 out.append(c)
                 k += 1
+    # checkpoints at k * len / k * updates_per_epoch of geometries with a short last batch (refused, or accepted and
+    # then held to the claim)
+    out += [I.gen_boundary_case(rng) for _ in range(60 if tier == "quick" else 600)]
     # the real DataLoader: what a resumed loader delivers = the tail of what the uninterrupted one delivers
     k = 0
     n_loader = 10 if tier == "quick" else 40
@@ -89,12 +95,24 @@ def oracle(case, obs):
     if case["start"] is None:
         return None
     e0 = I.start_epoch_of(case)
+    note = ""
+    if e0 == "NotImplementedError" and obs["result"] == "ok" and not case.get("mut"):
+        # a form of checkpoint the constructor may refuse (start_update / start_sample without drop_last).  It was
+        # ACCEPTED: then the claim applies - the run resumes at the epoch boundary the checkpoint denotes in the
+        # uninterrupted run (start_sample = k * len(main_sampler) is the end of epoch k)
+        e0 = I.resume_point(case)
+        if e0 is None or ["E", e0] not in obs.get("fresh", []):
+            return None     # inside an epoch / not before the budget: outside the claim
+        note = (f"checkpoint {case['start']} (accepted although drop_last=False) denotes the start of epoch {e0} of "
+                f"the uninterrupted run: ")
     if isinstance(e0, str):
         # not an epoch boundary / not resumable / invalid arguments: any explicit refusal is fine, a stream is
         # outside the claim
         return None
     if obs["result"] in ("NotImplementedError",):
         return None  # explicit refusal is an acceptable answer
+    if not I.before_budget(case, e0):
+        return None  # a checkpoint at / past the budget: outside the claim (ASSUMPTIONS)
     if obs["result"] != "ok":
         return f"resumed run: {obs['result']}"
     fresh = obs.get("fresh", [])
@@ -106,7 +124,7 @@ def oracle(case, obs):
     if tail != obs["log"]:
         d = next((i for i in range(min(len(tail), len(obs["log"]))) if tail[i] != obs["log"][i]),
                  min(len(tail), len(obs["log"])))
-        return (I.items_tag(tail, obs["log"]) + f"resumed stream differs from the uninterrupted run's suffix at event {d}: "
+        return (I.items_tag(tail, obs["log"]) + note + f"resumed stream differs from the uninterrupted run's suffix at event {d}: "
                 f"uninterrupted {tail[d:d + 8]} resumed {obs['log'][d:d + 8]} "
                 f"(lengths {len(tail)} vs {len(obs['log'])})")
     if case.get("loader") is not None:
